@@ -101,14 +101,44 @@ def compare_runs(inputs, code, env, case, label="program"):
     except Violation as v:
         if "MAP-empty-type-change" in LAST_TRACE:
             v.sig = "known:map-empty-type-change"
+            raise
+        if has_prim(code, "LAMBDA_REC"):
+            # known finding: pytezos runs a recursive lambda's body on `lambda : arg`, Michelson on `arg : lambda`. If pytezos
+            # agrees with the reference once every LAMBDA_REC body is prefixed with SWAP, the disagreement is exactly that.
+            try:
+                _compare_runs(inputs, code, env, case, label, pytezos_code=swap_rec_bodies(code))
+            except Violation:
+                raise v
+            v.sig = "known:lambda-rec-stack-order"
         raise
 
 
-def _compare_runs(inputs, code, env, case, label="program"):
+def has_prim(code, prim):
+    if isinstance(code, list):
+        return any(has_prim(c, prim) for c in code)
+    if isinstance(code, dict):
+        return code.get("prim") == prim or any(has_prim(a, prim) for a in code.get("args", []))
+    return False
+
+
+def swap_rec_bodies(code):
+    if isinstance(code, list):
+        return [swap_rec_bodies(c) for c in code]
+    if isinstance(code, dict) and "prim" in code:
+        out = dict(code)
+        if code.get("args"):
+            out["args"] = [swap_rec_bodies(a) for a in code["args"]]
+            if code["prim"] == "LAMBDA_REC":
+                out["args"][2] = [{"prim": "SWAP"}] + out["args"][2]
+        return out
+    return code
+
+
+def _compare_runs(inputs, code, env, case, label="program", pytezos_code=None):
     ref = run_reference(inputs, code, env)
     if ref[0] == "budget":
         return "budget", ref
-    items, err = run_pytezos(inputs, code, env)
+    items, err = run_pytezos(inputs, code if pytezos_code is None else pytezos_code, env)
     if ref[0] == "ok":
         if err is not None:
             raise Violation("%s fails in pytezos (%r) but the Michelson semantics gives a stack of %d: %s" % (
